@@ -182,12 +182,18 @@ func failDirective(kind string) vhk.Directive {
 		return vhk.Directive{Metrics: `{"name":"x","action":"increment","value":1}`}
 	case "bad-patch":
 		return vhk.Directive{Patch: `{"operation":"Annihilate","kind":"ConfigMap","name":"a"}`}
+	case "bad-patch-with-valid-metrics":
+		return vhk.Directive{Patch: `{"operation":"Annihilate","kind":"ConfigMap","name":"a"}`, Metrics: `{"name":"verif_ok_metric","action":"set","value":1}`}
+	case "patch-cannot-apply-with-valid-metrics":
+		return vhk.Directive{Patch: `{"operation":"Create","object":{"apiVersion":"v1","kind":"ConfigMap","metadata":{"name":"preexisting","namespace":"default"}}}`, Metrics: `{"name":"verif_ok_metric","action":"add","value":1}`}
+	case "bad-metrics-with-valid-patch":
+		return vhk.Directive{Metrics: `{"name":"x","action":"set","value":`, Patch: `{"operation":"CreateOrUpdate","object":{"apiVersion":"v1","kind":"ConfigMap","metadata":{"name":"made-by-failing-run","namespace":"default"}}}`}
 	case "patch-cannot-apply":
 		return vhk.Directive{Patch: `{"operation":"Create","object":{"apiVersion":"v1","kind":"ConfigMap","metadata":{"name":"preexisting","namespace":"default"}}}`}
 	}
 	return vhk.Directive{Exit: 1}
 }
 
-var failKinds = []string{"exit1", "exit2", "killed", "bad-metrics", "invalid-metric-op", "bad-patch", "patch-cannot-apply"}
+var failKinds = []string{"exit1", "exit2", "killed", "bad-metrics", "invalid-metric-op", "bad-patch", "patch-cannot-apply", "bad-patch-with-valid-metrics", "patch-cannot-apply-with-valid-metrics", "bad-metrics-with-valid-patch"}
 
 func joinLabels(l []string) string { return strings.Join(l, ",") }
